@@ -382,7 +382,7 @@ pub fn check_meta(c: &MetaCase, obs: &mut Obs) -> Result<(), String> {
 pub fn property() -> Property {
     Property {
         id: "C20",
-        rule: "Directory trees in a scratch directory (created and removed by the case): 0-8 sub-directories named base-version (1-3 '-', nb revisions, empty version, non-ASCII, leading '-') or without any '-', each holding a generated subset of the 14 '+' files with generated content - 60% complete packages, 20% with exactly one of +COMMENT/+CONTENTS/+DESC missing, 20% arbitrary subsets -, plus 0-2 stray plain files. Oracle: the multiset of yielded pkgname() = the directories holding all three mandatory files, each once; pkgbase / pkgversion = the parts before / after the last '-'; read_metadata(e) = the bytes written to '+FILE' (error when absent) for all 14 entries. Enumerated stream: MetadataEntry <-> file name is a bijection over the 14 names, near misses (lower case, without '+', padded, truncated, extended) give None. Third stream: Metadata after generated read_metadata sequences - is_valid() is Ok iff comment, contents and desc are non-empty after trimming, getters return what was read. Non-trivial = >= 2 valid packages and >= 1 incomplete directory or stray file. Distinct = distinct trees.",
+        rule: "Directory trees in a scratch directory (created and removed by the case): 0-8 sub-directories named base-version (1-3 '-', nb revisions, empty version, non-ASCII, leading '-') or without any '-', each holding a generated subset of the 14 '+' files with generated content - 60% complete packages, 20% with exactly one of +COMMENT/+CONTENTS/+DESC missing, 20% arbitrary subsets -, plus 0-2 stray plain files. Oracle: the multiset of yielded pkgname() = the directories holding all three mandatory files, each once; pkgbase / pkgversion = the parts before / after the last '-'; read_metadata(e) = the bytes written to '+FILE' (error when absent) for all 14 entries. Enumerated stream: MetadataEntry <-> file name is a bijection over the 14 names, near misses (lower case, without '+', padded, truncated, extended) give None. Third stream: Metadata after generated read_metadata sequences - is_valid() is Ok iff comment, contents and desc are non-empty after trimming, getters return what was read. Non-trivial = >= 2 valid packages and >= 1 incomplete directory or stray file. Distinct = distinct trees. Generators also draw, at low weight, tokens from the source-literal dictionary (every string / byte / character literal of the library's own source, collected at build time and filtered by this domain's character class) (as directory names with version-like suffixes, and as file contents).",
         assumptions: vec![
             "directory and file names are valid UTF-8 and distinct",
             "+SIZE_ALL / +SIZE_PKG are read with numeric content only (other content is C17's subject)",
